@@ -88,7 +88,7 @@ class Rendered(object):
                         emit(ind + "  Given " + _own_text(s["o"], k + 1))
                 else:
                     emit("")
-                    tagline(it["tags"], ind)
+                    tagline(list(it["tags"]) + (["x<c1>"] if it.get("ptag") else []), ind)
                     e = self._take("outline")
                     reg(e, emit(ind + "Scenario Outline: O%d" % e["id"]))
                     nst = len(it["blocks"][0]["rows"][0])
